@@ -476,6 +476,17 @@ fn s8_case(line: &str) -> Vec<String> {
                 assert!(ok, "kind {}", k);
             }
         }
+        // `alias=1`: a slot of the same kind as the slot below it IS the slot below it (one shared cell, what DUP leaves
+        // behind); the kind-level model cannot tell, so nothing the implementation does may depend on it
+        if m.get("alias").map(|s| s == "1").unwrap_or(false) {
+            let ks: Vec<char> = m["stack"].chars().collect();
+            for i in 1..ks.len() {
+                if ks[i] == ks[i - 1] && ks[i] != 'M' {
+                    let below = g.state.stack.inner[i - 1].clone();
+                    g.state.stack.inner[i] = below;
+                }
+            }
+        }
         if m["memo"] != "-" {
             for e in m["memo"].split(',') {
                 let (i, k) = e.split_once(':').unwrap();
